@@ -154,6 +154,29 @@ def run(ctx):
     ctx.check("R5", rr, M.has(rr.node, "for ($fn, $tgt) in options.remove:\n    ...\n    try:\n        if not options.pretend:\n            $fn($tgt)\n    except OSError as $e:\n        ..."), "only-listed-removed", "only the prepared (function, path) pairs are acted on")
     ctx.floor("R5", 2)
 
+    # ---- R6 "every file in the distdir" is selected only when no target was given ------------------------------------------
+    from ..core.cfg import cfg_of
+    g6 = cfg_of(dv.node)
+    whole = [st for t_, v, st in A.assignments(dv.node) if isinstance(t_, ast.Name) and t_.id == tfv and isinstance(v, ast.Name) and v.id != tfv]
+    ctx.check("R6", dv, bool(whole), "select-all-present", f"without targets `{tfv}` is the whole distdir listing")
+
+    def not_restricted(a_, b_, lab):
+        # forbid leaving a test on `namespace.restrict` by its False edge: what remains are the runs WITH targets
+        if a_.ast is not None and isinstance(a_.ast, ast.If):
+            t = a_.ast.test
+            neg = isinstance(t, ast.UnaryOp) and isinstance(t.op, ast.Not)
+            core = t.operand if neg else t
+            if isinstance(core, ast.Attribute) and core.attr == "restrict":
+                return lab is (False if neg else True)
+        return True
+    for st in whole:
+        path = g6.find_path([g6.entry], lambda n, _s=st: n.ast is _s, edge_ok=not_restricted)
+        ctx.check("R6", dv, path is None, "select-all-only-without-targets",
+                  "the whole-distdir selection is reachable only through the `no targets given` branch",
+                  f"`{A.unparse(st)}` can be reached in a run that HAS cleaning targets ({g6.fmt_path(path, dv.relpath) if path else ''}): targets that match no package in the "
+                  f"repositories select every file in the distdir", node=st)
+    ctx.floor("R6", 2)
+
 
 F = "src/pkgcore/scripts/pclean.py"
 MUTANTS = [
